@@ -7,6 +7,8 @@ def mk_arg(c, kind, name):
     """symbolic argument of a given kind (typed so that counter-models can be replayed natively)"""
     if kind == 'int':
         return c.named_int(name)
+    if kind == 'none':
+        return None
     if kind == 'optint':
         return c.named_int(name) if c.choice(2) else None
     if kind == 'bool':
@@ -69,6 +71,8 @@ def native_pool(envr, kind):
     m = envr.program.modules['ansi_string'].native
     ints = [0, 1, 2, 3, -1, -2, 5, 9]
     strs = ['', 'a', 'b', 'ab', 'ba', ' ', 'X', 'bb', '\t']
+    if kind == 'none':
+        return [None]
     if kind in ('int', 'smallint'):
         return ints
     if kind == 'smallcount':
@@ -89,7 +93,7 @@ def native_pool(envr, kind):
         return [None, [m.AnsiSetting('31')], 'red']
     if kind == 'operand':
         o = m.AnsiString('xy', 'bold')
-        return [o, 'z', m.AnsiStr('q', 'underline'), '']
+        return [o, 'z', 'zy', m.AnsiStr('q', 'underline'), '']
     if kind == 'index':
         return ints[:6] + [slice(None, 2), slice(1, None), slice(1, 3), slice(-2, None), slice(None, None)]
     return [None]
